@@ -108,6 +108,11 @@ func parseContentType(transaction *transaction, headers jws.Headers, _ *jws.Mess
 func parseSignatureParams(transaction *transaction, headers jws.Headers, _ *jws.Message) error {
 	if key, ok := headers.Get(jws.JWKKey); ok {
 		jwkKey := key.(jwk.Key)
+		// the embedded key is there to verify the signature: it must be a public key, never secret key material
+		switch jwkKey.(type) {
+		case jwk.ECDSAPrivateKey, jwk.RSAPrivateKey, jwk.OKPPrivateKey, jwk.SymmetricKey:
+			return transactionValidationError("`jwk` header must not hold a private or symmetric key")
+		}
 		transaction.signingKey = jwkKey
 	}
 	// Get the keyID from the header (not to be confused with the keyID from the embedded key)
